@@ -405,3 +405,24 @@ Definition h_memo : list op :=
   h_memo_hit ++
   [PurgeMemo 3%nat 1; SetVar 0%nat 3; Stabilize [];
    ClearMemo 3%nat; SetVar 0%nat 2; ParStabilize []; Unobserve 4%nat].
+
+(** * A template instantiates to the same subgraph whatever scope it is built in *)
+(* two states that differ only in the scope fields of nodes and the scope lists of bind records *)
+Record same_upto_scope (s1 s2 : state) : Prop := {
+  su_next : next s1 = next s2;
+  su_has : forall m, has s1 m <-> has s2 m;
+  su_nd : forall m, nd s2 m = nd s1 m <| scope := scope (nd s2 m) |>;
+  su_bd : forall b, bd s2 b = bd s1 b <| b_rhsNodes := b_rhsNodes (bd s2 b) |>;
+  su_rest : reg s1 = reg s2 /\ obs s1 = obs s2 /\ heap s1 = heap s2 /\ adj s1 = adj s2 /\ invq s1 = invq s2 /\
+            stabNum s1 = stabNum s2 /\ status s1 = status s2 /\ numNodes s1 = numNodes s2 /\
+            setDuring s1 = setDuring s2 /\ setRemoved s1 = setRemoved s2 /\ handlers s1 = handlers s2 /\
+            maxHeight s1 = maxHeight s2 /\ log s1 = log s2
+}.
+
+
+(** * Why [op_clean] still excludes observers on bind-scope nodes (Properties/C05_memo.v) *)
+(* node 5 is built by the bind's function in the first pass and observed while it is live; the
+   second pass swaps the right-hand side *)
+Definition h_inner : list op :=
+  [NewVar 1 false; NewBind [TMap (Aff 1 1) TX] 0%nat; Observe 2%nat; Stabilize [];
+   Observe 5%nat; SetVar 0%nat 2; Stabilize []].
